@@ -133,6 +133,34 @@ func init() {
 			}
 		}
 
+		// ------------------------------------------------------------ element-count sweep
+		// every input count and every output count from 0 to 1300 (thorough: 5000): whatever block
+		// size a parser or serialiser works in, some count is a multiple of it and some is one more
+		c.Phase("element-count-sweep")
+		{
+			top := 1300
+			if c.Thorough {
+				top = 5000
+			}
+			n := uint64(0)
+			for k := 0; k <= top; k++ {
+				for side := 0; side < 2; side++ {
+					n++
+					if !c.Case(n) {
+						continue
+					}
+					m := &c01Matrix{NIn: k, NOut: 1 + k%2, Pos: "none", Seed: c.Seed, N: n}
+					if side == 1 {
+						m = &c01Matrix{NIn: 1 + k%2, NOut: k, Pos: "none", Seed: c.Seed, N: n}
+					}
+					if k >= 2 {
+						m.Pos, m.Len = []string{"unlock", "lock"}[side], k%7
+					}
+					jm(c, m)
+				}
+			}
+		}
+
 		// ------------------------------------------------------------ integer edges
 		c.Phase("int-edges")
 		n = 0
